@@ -753,8 +753,10 @@ func (fsm *fsm) stateChange(nextState bgp.FSMState, reason *fsmStateReason) {
 			}
 		}
 
-		fsm.isEBGP = conf.IsEBGPPeer(fsm.gConf)
-		fsm.isConfed = fsm.gConf.IsConfederationMember(conf.Config.PeerAs)
+		// Use the AS the peer actually announced: with peer-as 0 (ASN
+		// negotiation skipped) the configured value says nothing about it.
+		fsm.isEBGP = remoteAS != localAS
+		fsm.isConfed = fsm.gConf.IsConfederationMember(remoteAS)
 		fsm.isTreatAsWithdraw = conf.ErrorHandling.Config.TreatAsWithdraw
 		// reset the state set by the previous session
 		fsm.twoByteAsTrans = false
